@@ -11,7 +11,8 @@ Conditions (otherwise nothing is inlined and the normal "undecided" outcome appl
   * `helper` is defined exactly once in /repo's src, common/src or precompile/src, and is not one of
     the functions the templates put under contract;
   * its parameters are plain `name: Type` (plus optionally `&self` / `&mut self` / `self`);
-  * RECV is `self` or a single identifier (so substituting it for `self` duplicates no effects);
+  * RECV is `self`, an identifier or a field path of identifiers (`self.position_info`): a place expression,
+    so binding a reference to it duplicates no effects;
   * the helper body contains no `return` and no `?` -- unless the call is the whole tail expression of
     the caller (then a `return`/`?` in the helper returns from the caller exactly as the call did);
   * the helper is not recursive and contains no macro definitions / nested fn items.
@@ -160,7 +161,7 @@ def eliminate_guards(hb):
     return hb
 
 
-def inline_helpers(repo, body, covered, self_name, log, depth=0):
+def inline_helpers(repo, body, covered, self_name, log, depth=0, stack=()):
     """covered: set of bare function names that the templates contract (never inlined)."""
     if depth > 2:
         return body
@@ -172,15 +173,20 @@ def inline_helpers(repo, body, covered, self_name, log, depth=0):
         changed = False
         guard += 1
         skip = ex._skip_map(body)
-        for m in re.finditer(r'(?:\b([A-Za-z_]\w*)\s*\.\s*)?\b([a-z_]\w*)\s*\(', body):
+        for m in re.finditer(r'(?:\b((?:[A-Za-z_]\w*\s*\.\s*)*[A-Za-z_]\w*)\s*\.\s*)?\b([a-z_]\w*)\s*\(', body):
             if skip[m.start()]:
                 continue
             recv, name = m.group(1), m.group(2)
-            if name in covered or name == self_name or name not in defs:
+            if recv is not None:
+                recv = re.sub(r'\s+', '', recv)
+            if name in covered or (name == self_name and depth == 0) or name not in defs:
                 continue
-            # method call on something more complex than an identifier: `a.b.helper(` -> skip
+            # the receiver must be a PLACE made of identifiers only (`x`, `self.position_info`): no calls, no
+            # indexing, so naming it twice duplicates no effect; anything else (`f().helper(`, `a[i].helper(`) -> skip
             pre = body[:m.start()].rstrip()
-            if pre.endswith('.') or pre.endswith('::'):
+            if pre.endswith('.') or pre.endswith('::') or pre.endswith(')') and False:
+                continue
+            if recv is not None and re.search(r'(^|\.)\d', recv):
                 continue
             p_open0 = body.index('(', m.end() - 1)
             nargs = len(_split_args(body[p_open0 + 1:ex.match_brace(body, p_open0, skip)]))
@@ -188,12 +194,15 @@ def inline_helpers(repo, body, covered, self_name, log, depth=0):
             for (path, start) in defs[name]:
                 dd = _parse_def(path, start)
                 if dd is not None and dd['has_self'] == (recv is not None) and len(dd['params']) == nargs:
+                    dd['key'] = (path, start)
                     cands.append(dd)
             if len(cands) != 1:
                 continue                      # unknown or ambiguous (same name, same arity)
             d = cands[0]
+            if d['key'] in stack:
+                continue                      # (mutually) recursive helper: not inlined
             hb = eliminate_guards(d['body'])
-            if re.search(r'\b(fn|macro_rules!)\b', hb) or re.search(r'\b%s\s*\(' % re.escape(name), hb):
+            if re.search(r'\b(fn|macro_rules!)\b', hb):
                 continue
             p_open = body.index('(', m.end() - 1)
             p_close = ex.match_brace(body, p_open, skip)
@@ -211,16 +220,18 @@ def inline_helpers(repo, body, covered, self_name, log, depth=0):
                 if ty.startswith('&'):
                     return 'let %s__h = &*(%s); ' % (pn, a)
                 return 'let %s__h = %s; ' % (pn, a)
+            # argument temporaries first (they may mention an outer `self__h`), then the receiver (a place: no
+            # effects, so evaluating it after the arguments changes nothing), then the parameters
             binds = ''.join(bind(pn, ty, a) for pn, ty, a in zip(d['params'], d['types'], args))
-            binds += ''.join('let %s = %s__h; ' % (p, p) for p in d['params'])
             if recv and recv != 'self':
                 # `self` inside the helper is a reference to the receiver
-                binds = ('let self__h = &%s; ' % recv if d['self_kind'] == 'ref' else
-                         'let self__h = &mut %s; ' % recv if d['self_kind'] == 'mut' else 'let self__h = %s; ' % recv) + binds
+                binds += ('let self__h = &%s; ' % recv if d['self_kind'] == 'ref' else
+                          'let self__h = &mut %s; ' % recv if d['self_kind'] == 'mut' else 'let self__h = %s; ' % recv)
                 inner = _subst_self(hb, 'self__h')
             else:
                 inner = hb
-            inner = inline_helpers(repo, inner, covered, name, log, depth + 1)
+            binds += ''.join('let %s = %s__h; ' % (p, p) for p in d['params'])
+            inner = inline_helpers(repo, inner, covered, name, log, depth + 1, stack + (d['key'],))
             body = body[:call_start] + '{ ' + binds + inner + ' }' + body[call_end:]
             log.append('R19')
             changed = True
